@@ -19,7 +19,9 @@
        C10_projection_closed, C10_nothing_lost, C10_frame_transfer (operations that never write a file set),
        C10_move_transfer, C10_add_to_file, C10_create_file, C10_remove_from_file, C10_remove_file_partial,
        C10_remove_file_keeps, C10_remove_file_exact, C10_remove_file_exact_index, C10_remove_file_exact_refs,
-       C10_remove_last_file, C10_inv, C10_history, C10_reachable
+       C10_remove_last_file, C10_inv, C10_history, C10_reachable, C10_files_owned, C10_owned_never_unowned,
+       C10_inv_owned, C10_history_owned, C10_reachable_owned (the same three without the Unowned exclusion: FilesOwned,
+       "every file listed in a model names that model", holds in the empty world and is preserved by all 26 operations)
    [P] C10_remove_file_exact ("removes exactly") carries the side condition that no SHORT-NAME element of the model has
        a local file set: without it a deletion of the scan list can fail and the element stays (finding
        C10-shortname-own-file-set, witness d_short_* in Tree/Files.v); C10_remove_file_exact_index / _refs take
@@ -30,7 +32,7 @@
        (vm_compute on the tiny table set of Tree/Files.v). *)
 From AV Require Import Base.Bytes Base.Outcome Hash.HashModel Tree.Heap Tree.Ops Tree.Script Tree.Serialize Tree.Inv.
 From AV Require Import Tree.Files Tree.FilesProofsProj Tree.FilesProofsFrame Tree.FilesProofsAdd Tree.FilesProofsRemove Tree.FilesProofsExact Tree.FilesProofsLast Tree.FilesProofsMove
-  Tree.FilesProofsInv Tree.FilesProofsHist Tree.FilesProofsTop Tree.FilesProofsExact2.
+  Tree.FilesProofsInv Tree.FilesProofsHist Tree.FilesProofsTop Tree.FilesProofsExact2 Tree.FilesProofsOwned.
 From AV Require Tree.Index.
 Open Scope list_scope.
 Open Scope N_scope.
@@ -193,6 +195,43 @@ Theorem C10_reachable :
   steps_ok T tab_el tab_en check_fn LATEST root_attrs l empty_world = true ->
   run_ops T tab_el tab_en check_fn LATEST root_attrs l empty_world = Val w' -> TreeInv w' /\ FilesInv T w'.
 Proof. exact reachable_all. Qed.
+
+(* ---------- FilesOwned (every file listed in a model names that model) replaces the Unowned exclusion ---------- *)
+(* every operation preserves FilesOwned (no exclusion at all: only Core, C03's unconditional part) *)
+Theorem C10_files_owned :
+  forall (T : tables) (tab_el tab_en : nametab) (check_fn : N -> list N -> res bool) (LATEST : N)
+         (root_attrs : list (N * cdata)) (o : op) (w : world) (r : out value) (w' : world),
+  Core w -> FilesOwned w ->
+  run_op T tab_el tab_en check_fn LATEST root_attrs o w = Val (r, w') -> FilesOwned w'.
+Proof. exact owned_step_all. Qed.
+
+Theorem C10_owned_never_unowned :
+  forall (w : world) (o : op), FilesOwned w -> Unowned w o = false.
+Proof. exact owned_not_unowned. Qed.
+
+(* C10_inv / C10_history / C10_reachable without the Unowned exclusion, FilesOwned carried along *)
+Theorem C10_inv_owned :
+  forall (T : tables) (tab_el tab_en : nametab) (check_fn : N -> list N -> res bool) (LATEST : N)
+         (root_attrs : list (N * cdata)) (o : op) (w : world) (r : out value) (w' : world),
+  TreeInv w -> FilesInv T w -> FilesOwned w -> RootNamedLast T w o = false -> Known10 w o = false ->
+  run_op T tab_el tab_en check_fn LATEST root_attrs o w = Val (r, w') -> FilesInv T w' /\ FilesOwned w'.
+Proof. exact inv_step_owned_all. Qed.
+
+Theorem C10_history_owned :
+  forall (T : tables) (tab_el tab_en : nametab) (check_fn : N -> list N -> res bool) (LATEST : N)
+         (root_attrs : list (N * cdata)) (l : list op) (w w' : world),
+  TreeInv w -> FilesInv T w -> FilesOwned w ->
+  steps_ok_owned T tab_el tab_en check_fn LATEST root_attrs l w = true ->
+  run_ops T tab_el tab_en check_fn LATEST root_attrs l w = Val w' -> TreeInv w' /\ FilesInv T w' /\ FilesOwned w'.
+Proof. exact inv_histories_owned_all. Qed.
+
+(* closed form: steps_ok_owned avoids C03's Known classes, Known10 and RootNamedLast only *)
+Theorem C10_reachable_owned :
+  forall (T : tables) (tab_el tab_en : nametab) (check_fn : N -> list N -> res bool) (LATEST : N)
+         (root_attrs : list (N * cdata)) (l : list op) (w' : world),
+  steps_ok_owned T tab_el tab_en check_fn LATEST root_attrs l empty_world = true ->
+  run_ops T tab_el tab_en check_fn LATEST root_attrs l empty_world = Val w' -> TreeInv w' /\ FilesInv T w' /\ FilesOwned w'.
+Proof. exact reachable_owned_all. Qed.
 
 Theorem C10_self_contained :
   forall (T : tables) (Loads : world -> option N -> id -> Prop),
